@@ -1,5 +1,6 @@
 From Coq Require Import ZArith List Bool Lia. From MS Require Import PyBase Bits ByteFacts BufferAbs Schc SchcSpec SchcCodec SchcRules Compute. Import ListNotations. Open Scope Z_scope.
-From MS Require Import Crc32cTable.
+From MS Require Import Crc32cTable PySort.
+From Coq Require Import Permutation.
 (* SchcTotal.v -- property C20: decompression is total.  Whatever bits arrive, a rule whose actions
    have the target-value types the decompressor expects yields a packet: first the field stage
    (decompress_fields never fails), then the compute stage with the table of Compute.v (lengths,
@@ -602,29 +603,60 @@ Proof.
   now apply list_set_same.
 Qed.
 
+(* ---- the number of compute entries ------------------------------------------------------------------ *)
+Definition known (ct : compute_table) (f : fid) : bool := match ct f with Some _ => true | None => false end.
+
+Lemma centries_count ct rfs : forall pos,
+  (length (centries_of ct pos rfs) <= length (filter (known ct) (map r_id rfs)))%nat.
+Proof.
+  induction rfs as [|rf rfs IH]; intros pos; [apply Nat.le_refl|].
+  rewrite centries_of_cons, app_length. specialize (IH (pos + 1)). cbn [map filter].
+  unfold ce_of, known at 1. destruct (r_cda rf); destruct (ct (r_id rf)) as [[fn deps]|]; cbn [length]; lia.
+Qed.
+
+Lemma filter_known_none ct rest : Forall (fun f => ct f = None) rest -> filter (known ct) rest = [].
+Proof. induction 1 as [|f rest H _ IH]; [reflexivity|]. cbn [filter]. unfold known at 1. now rewrite H. Qed.
+
+Lemma filter_len_le {A} (p : A -> bool) l : (length (filter p l) <= length l)%nat.
+Proof. induction l as [|x l IH]; [apply Nat.le_refl|]. cbn [filter]. destruct (p x); cbn [length]; lia. Qed.
+
+(* the ids the table knows all lie in a prefix: no more entries than the prefix is long *)
+Lemma centries_prefix_bound ct rfs pre rest pos : map r_id rfs = pre ++ rest -> Forall (fun f => ct f = None) rest ->
+  (length (centries_of ct pos rfs) <= length pre)%nat.
+Proof.
+  intros E HR. pose proof (centries_count ct rfs pos) as H. rewrite E, filter_app, app_length in H.
+  rewrite (filter_known_none ct rest HR) in H. pose proof (filter_len_le (known ct) pre). cbn [length] in H. lia.
+Qed.
+
 (* ---- C20 with the compute stage --------------------------------------------------------------------- *)
+(* The compute entries are run in the order list.sort puts them in; each compute function succeeds on
+   any field list with the ids and lengths of the rebuilt one (compute_entry_total), so the order does
+   not matter for totality.  CHANGED premise: the former order_ok (map r_id rfs) = true (entries already
+   sorted, the only case the model covered) is replaced by the bound the model of list.sort needs. *)
 Theorem c20_total_gen r d s :
   let rfs := select_fds d (rule_fds r) in
   forallb (cda_typed compute_functions) rfs = true ->
-  order_ok (map r_id rfs) = true ->
+  (length (centries_of compute_functions 0 rfs) < 64)%nat ->
   (forall k rf, nth_error rfs k = Some rf -> r_cda rf = Compute -> r_id rf = UDP_CHECKSUM ->
                 udp_ck_ok (map r_id rfs) k = true) ->
   (forall rf, In rf rfs -> r_cda rf = Compute -> r_len rf = compute_len (r_id rf)) ->
   static_bits rfs + zlen s <= 8 * 65535 ->
   exists p, decompress compute_functions s r d = Ok p.
 Proof.
-  intros rfs T HO HU HLen HB. unfold decompress. cbv zeta. fold rfs.
+  intros rfs T HN HU HLen HB. unfold decompress. cbv zeta. fold rfs.
   set (s' := py_slice s (Some (zlen (rule_id r))) None).
   assert (Ls' : zlen s' <= zlen s) by apply slice_from_len.
   destruct (decompress_fields_total_strong _ rfs T s' 0) as (fs & rest & E & HF & Hsz).
-  rewrite E. cbn [bind]. rewrite (centries_sorted rfs 0 HO). cbn [negb].
+  rewrite E. cbn [bind].
+  destruct (py_sort_ces_total _ HN) as (ces & ES). rewrite ES.
   assert (HT : total_ok (fs ++ [(payload_fid, rest)])).
   { unfold total_ok, vals, lens. rewrite !map_app, sumz_app. cbn [map snd sumz]. unfold lens in Hsz.
     clearbody s'. unfold bits in *. lia. }
-  destruct (run_computes_total (fun x => shape x = shape (fs ++ [(payload_fid, rest)]))
-              (centries_of compute_functions 0 rfs)
-              (compute_entry_total rfs fs rest HU HLen HF HT) _ eq_refl) as (fs' & R & _).
-  rewrite R. cbn [bind]. eexists. reflexivity.
+  destruct (run_computes_total (fun x => shape x = shape (fs ++ [(payload_fid, rest)])) ces) with (fs := fs ++ [(payload_fid, rest)])
+    as (fs' & R & _); [|reflexivity|].
+  - intros e fs1 I. apply (compute_entry_total rfs fs rest HU HLen HF HT).
+    apply Permutation_in with (l := ces); [symmetry; exact (py_sort_ces_perm _ _ ES)|exact I].
+  - rewrite R. cbn [bind]. eexists. reflexivity.
 Qed.
 
 (* ---- rules with the field ids of a supported stack --------------------------------------------------- *)
@@ -645,6 +677,14 @@ Theorem stack_shaped_order rfs : stack_shaped rfs -> order_ok (map r_id rfs) = t
 Proof.
   intros (pre & rest & E & HP & HR & _). rewrite E. apply order_ok_app; [|exact HR].
   destruct HP as [->|[->|[->|[->|[->|[->|[->| ->]]]]]]]; vm_compute; reflexivity.
+Qed.
+
+(* a stack-shaped rule has at most 16 compute entries *)
+Theorem stack_shaped_entries rfs pos : stack_shaped rfs -> (length (centries_of compute_functions pos rfs) <= 16)%nat.
+Proof.
+  intros (pre & rest & E & HP & HR & _). pose proof (centries_prefix_bound compute_functions rfs pre rest pos E HR) as H.
+  assert (length pre <= 16)%nat; [|lia].
+  destruct HP as [->|[->|[->|[->|[->|[->|[->| ->]]]]]]]; vm_compute; lia.
 Qed.
 
 Ltac step_k k H :=
@@ -681,7 +721,7 @@ Theorem c20_total r d s :
   exists p, decompress compute_functions s r d = Ok p.
 Proof.
   intros T SS Ls HLen HSt. apply c20_total_gen; try assumption.
-  - now apply stack_shaped_order.
+  - pose proof (stack_shaped_entries _ 0 SS). lia.
   - intros k rf N _ Hid. now apply (stack_shaped_udp _ k rf).
   - lia.
 Qed.
@@ -737,11 +777,12 @@ Qed.
 
 
 (* rules that do not compute the UDP checksum need no IP header in front: e.g. a bare UDP rule whose
-   length field is computed (order_ok (map r_id rfs) is a vm_compute check on the ids) *)
+   length field is computed.  CHANGED premise as in c20_total_gen: fewer than 64 compute entries
+   instead of order_ok (map r_id rfs) = true *)
 Theorem c20_total_no_udp_checksum r d s :
   let rfs := select_fds d (rule_fds r) in
   forallb (cda_typed compute_functions) rfs = true ->
-  order_ok (map r_id rfs) = true ->
+  (length (centries_of compute_functions 0 rfs) < 64)%nat ->
   (forall rf, In rf rfs -> r_cda rf = Compute -> r_id rf <> UDP_CHECKSUM) ->
   (forall rf, In rf rfs -> r_cda rf = Compute -> r_len rf = compute_len (r_id rf)) ->
   static_bits rfs + zlen s <= 8 * 65535 ->
